@@ -200,3 +200,240 @@ func vh_C14_ops() {
 		vC14Run(4, 4)
 	}
 }
+
+// ---- views: range iteration, printed form, JSON; keys of every kind,
+// values of different kinds ----
+
+type vC14VEntry struct {
+	key  Sexp
+	kind int // 0 int, 1 string, 2 float, 3 array
+	ival int64
+}
+
+var vC14PoolSrc = []string{`(quote a)`, `(quote b)`, `"a"`, `"b c"`, `97`, `'a'`}
+
+func vC14PoolKey(env *Zlisp, k int) Sexp {
+	switch k {
+	case 0:
+		return env.MakeSymbol("a")
+	case 1:
+		return env.MakeSymbol("b")
+	case 2:
+		return &SexpStr{S: "a"}
+	case 3:
+		return &SexpStr{S: "b c"}
+	case 4:
+		return &SexpInt{Val: 97}
+	default:
+		return &SexpChar{Val: 'a'}
+	}
+}
+
+func vC14VSame(a, b Sexp) bool {
+	if sa, ok := a.(*SexpStr); ok {
+		sb, ok2 := b.(*SexpStr)
+		return ok2 && sa.S == sb.S
+	}
+	if sa, ok := a.(*SexpSymbol); ok {
+		sb, ok2 := b.(*SexpSymbol)
+		return ok2 && sa.name == sb.name
+	}
+	return vC14Same(a, b)
+}
+
+func vC14VMatch(real Sexp, e vC14VEntry) bool {
+	switch e.kind {
+	case 0:
+		i, ok := real.(*SexpInt)
+		return ok && i.Val == e.ival
+	case 1:
+		s, ok := real.(*SexpStr)
+		return ok && s.S == "str"
+	case 2:
+		f, ok := real.(*SexpFloat)
+		return ok && f.Val == 2.5
+	default:
+		a, ok := real.(*SexpArray)
+		if !ok || len(a.Val) != 1 {
+			return false
+		}
+		i, ok := a.Val[0].(*SexpInt)
+		return ok && i.Val == e.ival
+	}
+}
+
+// vh_C14_views: after a history of sets and deletes over keys of every kind
+// (symbols, strings, an int and the char of the same numeric value) with
+// values of different kinds, every view of the hash presents exactly the live
+// keys, once each, in first-insertion order, with their latest values: the
+// range macro, the go-style range loop of infix blocks, the printed form
+// (read back and evaluated) and the JSON text (member order).
+func vh_C14_views() {
+	vFormatOpaque(false)
+	env := vStdEnvs(1)[0]
+	s := func(n string) Sexp { return env.MakeSymbol(n) }
+	ev := func(f Sexp) (Sexp, bool) {
+		r, err, p := vEval(env, f)
+		return r, err == nil && !p
+	}
+	if _, ok := ev(vL(s("def"), s("h"), vL(s("hash")))); !ok {
+		vAssert(false, "views-setup")
+		return
+	}
+	nops := 2
+	if vTier() == 1 {
+		nops = 3
+	}
+	var model []vC14VEntry
+	for step := 0; step < nops; step++ {
+		ki := vChoice("key", 6)
+		key := vC14PoolKey(env, ki)
+		var keyForm Sexp = key
+		if ki <= 1 {
+			keyForm = vL(s("quote"), key)
+		}
+		at := -1
+		for i := range model {
+			if vC14VSame(model[i].key, key) {
+				at = i
+			}
+		}
+		if vChoice("op", 2) == 1 {
+			_, ok := ev(vL(s("hdel"), s("h"), keyForm))
+			vAssert(ok, "views-hdel-succeeds")
+			if at >= 0 {
+				model = append(model[:at:at], model[at+1:]...)
+			}
+			continue
+		}
+		e := vC14VEntry{key: key, kind: vChoice("vkind", 4)}
+		iv := vInt64("v")
+		vAssume(iv >= 0 && iv < 10)
+		e.ival = iv
+		var val Sexp
+		switch e.kind {
+		case 0:
+			val = &SexpInt{Val: iv}
+		case 1:
+			val = &SexpStr{S: "str"}
+		case 2:
+			val = &SexpFloat{Val: 2.5}
+		default:
+			val = vA(env, &SexpInt{Val: iv})
+		}
+		_, ok := ev(vL(s("hset"), s("h"), keyForm, val))
+		vAssert(ok, "views-hset-succeeds")
+		if at >= 0 {
+			model[at].kind, model[at].ival = e.kind, e.ival
+		} else {
+			model = append(model, e)
+		}
+	}
+	checkSeq := func(ks, vs Sexp, label string) {
+		ka, okK := ks.(*SexpArray)
+		va, okV := vs.(*SexpArray)
+		vAssert(okK && okV, label+"-collects")
+		if !okK || !okV {
+			return
+		}
+		vAssert(len(ka.Val) == len(model) && len(va.Val) == len(model), label+"-visits-each-live-key-once")
+		if len(ka.Val) != len(model) || len(va.Val) != len(model) {
+			return
+		}
+		for i := range model {
+			vAssert(vC14VSame(ka.Val[i], model[i].key), label+"-keys-in-insertion-order")
+			vAssert(vC14VMatch(va.Val[i], model[i]), label+"-latest-values")
+		}
+	}
+	view := vChoice("view", 2)
+	if view == 0 { // the range macro
+		forms := vT(env, `(def ks []) (def vs []) (range k v h (set ks (append ks k)) (set vs (append vs v)))`)
+		good := true
+		for _, f := range forms {
+			if _, ok := ev(f); !ok {
+				good = false
+			}
+		}
+		vAssert(good, "range-macro-succeeds")
+		if good {
+			ks, _ := ev(s("ks"))
+			vs, _ := ev(s("vs"))
+			checkSeq(ks, vs, "range-macro")
+		}
+		// go-style range loop in an infix block
+		forms = vT(env, `(def ks2 []) (def vs2 []) { for kk, vv := range h { ks2 = (append ks2 kk); vs2 = (append vs2 vv) } }`)
+		good = true
+		for _, f := range forms {
+			if _, ok := ev(f); !ok {
+				good = false
+			}
+		}
+		vAssert(good, "range-loop-succeeds")
+		if good {
+			ks, _ := ev(s("ks2"))
+			vs, _ := ev(s("vs2"))
+			checkSeq(ks, vs, "range-loop")
+		}
+	} else { // printed form, read back and evaluated; JSON text
+		// both are defined for JSON-like hashes (symbol or string keys): a
+		// printed hash whose first key is a number or a char reads as an
+		// infix block, and JSON member names are strings
+		for _, e := range model {
+			switch e.key.(type) {
+			case *SexpStr, *SexpSymbol:
+			default:
+				vReach("views")
+				vDone()
+			}
+		}
+		r, ok := ev(vL(s("eval"), vL(s("read"), vL(s("str"), s("h")))))
+		vAssert(ok, "printed-form-reads-back")
+		if ok {
+			h2, isH := r.(*SexpHash)
+			vAssert(isH, "printed-form-is-a-hash")
+			if isH {
+				env.AddGlobal("h2", h2)
+				ks, ok1 := ev(vL(s("keys"), s("h2")))
+				vAssert(ok1, "printed-form-keys")
+				ka, isA := ks.(*SexpArray)
+				if ok1 && isA {
+					vAssert(len(ka.Val) == len(model), "printed-form-presents-each-live-key-once")
+					if len(ka.Val) == len(model) {
+						for i := range model {
+							vAssert(vC14VSame(vC14Canon(ka.Val[i]), model[i].key), "printed-form-keys-in-insertion-order")
+							v, okv := ev(vL(s("hget"), s("h2"), vL(s("quote"), ka.Val[i])))
+							vAssert(okv && vC14VMatch(v, model[i]), "printed-form-latest-values")
+						}
+					}
+				}
+			}
+		}
+		// JSON text: members in insertion order
+		h, _ := ev(s("h"))
+		txt := SexpToJson(h)
+		j, ok := vjParse(txt)
+		vAssert(ok && j.k == vjObj, "json-is-an-object")
+		if ok && j.k == vjObj {
+			var names []string
+			for _, k := range j.keys {
+				if k != "Atype" && k != "zKeyOrder" {
+					names = append(names, k)
+				}
+			}
+			vAssert(len(names) == len(model), "json-presents-each-live-key-once")
+			if len(names) == len(model) {
+				for i := range model {
+					want := ""
+					switch t := model[i].key.(type) {
+					case *SexpStr:
+						want = t.S
+					case *SexpSymbol:
+						want = t.name
+					}
+					vAssert(names[i] == want, "json-members-in-insertion-order")
+				}
+			}
+		}
+	}
+	vReach("views")
+}
